@@ -444,9 +444,25 @@ func (g *vgen) equiv(n ast.Node, stack []ast.Node) {
 			if pureExpr(x.X) && pureExpr(x.Y) {
 				g.add("swap-eq", x, r+" "+x.Op.String()+" "+l)
 			}
+			if ce, ok := x.X.(*ast.CallExpr); ok {
+				if id, ok := ce.Fun.(*ast.Ident); ok && id.Name == "len" {
+					if bl, ok := x.Y.(*ast.BasicLit); ok && bl.Value == "0" && x.Op == token.EQL {
+						g.add("len-zero", x, l+" < 1")
+					}
+				}
+			}
 		case token.LSS, token.GTR, token.LEQ, token.GEQ:
 			if pureExpr(x.X) && pureExpr(x.Y) {
 				g.add("flip-rel", x, r+" "+flip[x.Op]+" "+l)
+			}
+			// len(x) > 0  ↔  len(x) != 0 ;  len(x) >= 1 ;  len(x) < 1 ↔ len(x) == 0
+			if ce, ok := x.X.(*ast.CallExpr); ok {
+				if id, ok := ce.Fun.(*ast.Ident); ok && id.Name == "len" {
+					if bl, ok := x.Y.(*ast.BasicLit); ok && bl.Value == "0" && x.Op == token.GTR {
+						g.add("len-zero", x, l+" != 0")
+						g.add("len-zero", x, l+" >= 1")
+					}
+				}
 			}
 		case token.ADD, token.MUL:
 			if g.isNumeric(x.X) && g.isNumeric(x.Y) && pureExpr(x.X) && pureExpr(x.Y) {
@@ -475,6 +491,30 @@ func (g *vgen) equiv(n ast.Node, stack []ast.Node) {
 		if x.Init == nil && x.Else != nil {
 			if eb, ok := x.Else.(*ast.BlockStmt); ok {
 				g.add("invert-if", x, "if !("+g.text(x.Cond)+") "+g.text(eb)+" else "+g.text(x.Body))
+			}
+		}
+		// the condition computed into a local first (only for statements directly in a block,
+		// so that the temporary can be declared just before)
+		if x.Init == nil && len(stack) >= 2 {
+			if _, inBlock := stack[len(stack)-2].(*ast.BlockStmt); inBlock {
+				g.add("hoist-cond", x, "condHoisted := "+g.text(x.Cond)+"\nif condHoisted "+g.text(x.Body)+func() string {
+					if x.Else != nil {
+						return " else " + g.text(x.Else)
+					}
+					return ""
+				}())
+			}
+		}
+		// De Morgan on a negated conjunction / disjunction
+		if ue, ok := x.Cond.(*ast.UnaryExpr); ok && ue.Op == token.NOT {
+			if pe, ok := ue.X.(*ast.ParenExpr); ok {
+				if be, ok := pe.X.(*ast.BinaryExpr); ok && (be.Op == token.LAND || be.Op == token.LOR) {
+					op := "||"
+					if be.Op == token.LOR {
+						op = "&&"
+					}
+					g.add("demorgan", ue, "!("+g.text(be.X)+") "+op+" !("+g.text(be.Y)+")")
+				}
 			}
 		}
 	case *ast.BlockStmt:
